@@ -71,6 +71,29 @@ func c37Dump(ctx context.Context, out *verifx.Out, tag string, st storage.Storag
 
 func c37Str(s string) *string { return &s }
 
+// c37MultipartThreshold is the part size of the AWS upload manager (manager.DefaultUploadPartSize =
+// manager.MinUploadPartSize = 5 MiB, not configurable below that): a body of one byte more is the
+// smallest that takes CreateMultipartUpload/UploadPart/CompleteMultipartUpload instead of PutObject.
+const c37MultipartThreshold = 5 * 1024 * 1024
+
+// c37SubsetOpts draws one of the attribute subsets {none, class, tags, metadata, content type, all}.
+func c37SubsetOpts(r *verifx.Rng) (*string, *storage.PutObjectOptions) {
+	md := &storage.ObjectMetadata{CacheControl: c37Str("max-age=3"), UserMetadata: map[string]string{"color": "x y"}}
+	switch r.Intn(6) {
+	case 0:
+		return nil, nil
+	case 1:
+		return nil, &storage.PutObjectOptions{StorageClass: c37Str(verifx.Pick(r, []string{"STANDARD_IA", "GLACIER", "DEEP_ARCHIVE"}))}
+	case 2:
+		return nil, &storage.PutObjectOptions{Tags: map[string]string{"t": "v"}}
+	case 3:
+		return nil, &storage.PutObjectOptions{Metadata: md}
+	case 4:
+		return c37Str("application/json"), nil
+	}
+	return c37Str("text/plain"), &storage.PutObjectOptions{StorageClass: c37Str("GLACIER"), Tags: map[string]string{"t": "v", "env": ""}, Metadata: md}
+}
+
 // c37RichOpts draws put options that exercise every metadata field, several Expires formats,
 // tag keys/values that need URL escaping in an x-amz-tagging header, and all storage classes.
 func c37RichOpts(r *verifx.Rng) (ct *string, o *storage.PutObjectOptions) {
@@ -149,6 +172,25 @@ func c37Directed(ctx context.Context, st storage.Storage, which int) {
 		for i, ex := range []string{"Wed, 21 Oct 2015 07:28:00 GMT", "not-a-date", "Wednesday, 21-Oct-15 07:28:00 GMT", "Wed Oct 21 07:28:00 2015", "2030-01-01T00:00:00Z"} {
 			c37Put(ctx, st, "bkt-b0", fmt.Sprintf("ex-%d", i), []byte("x"), c37Str("text/plain"), &storage.PutObjectOptions{Metadata: &storage.ObjectMetadata{Expires: c37Str(ex)}})
 		}
+	case 4: // objects just above the uploader's part size (multipart path) x every attribute subset
+		c37EnsureBucket(ctx, st, "bkt-b0")
+		body := verifx.NewRng(0xC37).Bytes(c37MultipartThreshold + 1)
+		md := func() *storage.ObjectMetadata {
+			return &storage.ObjectMetadata{CacheControl: c37Str("no-cache"), ContentLanguage: c37Str("de"), UserMetadata: map[string]string{"a": "1"}}
+		}
+		c37Put(ctx, st, "bkt-b0", "big-none", body, nil, nil)
+		c37Put(ctx, st, "bkt-b0", "big-class", body, nil, &storage.PutObjectOptions{StorageClass: c37Str("GLACIER")})
+		c37Put(ctx, st, "bkt-b0", "big-tags", body, nil, &storage.PutObjectOptions{Tags: map[string]string{"env": "prod"}})
+		c37Put(ctx, st, "bkt-b0", "big-md", body, nil, &storage.PutObjectOptions{Metadata: md()})
+		c37Put(ctx, st, "bkt-b0", "big-ct", body, c37Str("image/png"), nil)
+		c37Put(ctx, st, "bkt-b0", "big-class-tags", body, nil, &storage.PutObjectOptions{StorageClass: c37Str("STANDARD_IA"), Tags: map[string]string{"t": "v"}})
+		c37Put(ctx, st, "bkt-b0", "big-all", body, c37Str("text/plain"), &storage.PutObjectOptions{StorageClass: c37Str("DEEP_ARCHIVE"),
+			Tags: map[string]string{"env": "prod", "a b": "1+1=2"}, Metadata: md()})
+		// the same subsets on the single-put path, for contrast
+		small := []byte("small")
+		c37Put(ctx, st, "bkt-b0", "small-class", small, nil, &storage.PutObjectOptions{StorageClass: c37Str("GLACIER")})
+		c37Put(ctx, st, "bkt-b0", "small-tags", small, nil, &storage.PutObjectOptions{Tags: map[string]string{"env": "prod"}})
+		c37Put(ctx, st, "bkt-b0", "small-md", small, nil, &storage.PutObjectOptions{Metadata: md()})
 	case 3: // the full set on one object; an empty object; two buckets; an empty bucket
 		c37EnsureBucket(ctx, st, "bkt-b0")
 		c37EnsureBucket(ctx, st, "bkt-b1")
@@ -179,6 +221,7 @@ func runC37(args []string) {
 		c37Script{stack: "fs", scenario: "nonempty", directed: 3},
 		c37Script{stack: "sql", scenario: "unrelated", directed: 3},
 		c37Script{stack: "fs", scenario: "nonempty", directed: 1},
+		c37Script{stack: "fs", scenario: "empty", directed: 4},
 	)
 	if f.Tier == "thorough" {
 		const MiB = 1 << 20
@@ -231,6 +274,12 @@ func runC37(args []string) {
 					c37EnsureBucket(ctx, src.Storage, b)
 					ct, o := c37RichOpts(r)
 					c37Put(ctx, src.Storage, b, fmt.Sprintf("x%d", r.Intn(6)), (&s3hGen{r: r}).body(), ct, o)
+				}
+				// every fourth generated source also holds an object on the multipart path, with a random attribute subset
+				if r.Chance(1, 4) {
+					c37EnsureBucket(ctx, src.Storage, "bkt-b0")
+					ct, o := c37SubsetOpts(r)
+					c37Put(ctx, src.Storage, "bkt-b0", "large", r.Bytes(c37MultipartThreshold+1+r.Intn(3)), ct, o)
 				}
 				for i, n := range sc.big {
 					c37EnsureBucket(ctx, src.Storage, "bkt-b0")
